@@ -79,7 +79,7 @@ func (g *c14gen) psList(movement bool) *PSList {
 	g.depth++
 	defer func() { g.depth-- }()
 	ps := &PSList{Var: rapid.SampledFrom([]string{"V", "W"}).Draw(t, "psvar")}
-	keys := rapid.Permutation([]string{"A", "B", "1", "_"}).Draw(t, "pskeys")
+	keys := rapid.Permutation([]string{"A", "B", "1", "_", "0x2", "02"}).Draw(t, "pskeys") // (numeric keys are compared as written)
 	nk := rapid.IntRange(1, 4).Draw(t, "npskeys")
 	keys = keys[:nk]
 	if g.depth > 1 && g.nestedFallback {
@@ -117,7 +117,7 @@ func (g *c14gen) psList(movement bool) *PSList {
 
 func genC14(t *rapid.T) *C14Case {
 	g := &c14gen{t: t, big: 1, nestedFallback: true}
-	c := &C14Case{File: &File{}, Switches: map[string]string{"V": rapid.SampledFrom([]string{"A", "B", "1", "zz"}).Draw(t, "v"), "W": rapid.SampledFrom([]string{"A", "_", "q"}).Draw(t, "w")}}
+	c := &C14Case{File: &File{}, Switches: map[string]string{"V": rapid.SampledFrom([]string{"A", "B", "1", "zz", "0x2", "02", "2"}).Draw(t, "v"), "W": rapid.SampledFrom([]string{"A", "_", "q"}).Draw(t, "w")}}
 	n := rapid.IntRange(1, 4).Draw(t, "ntops")
 	sc := &Script{Name: "S", Body: &Block{Stmts: []*Stmt{}}}
 	scope := func() string {
@@ -156,12 +156,20 @@ func genC14(t *rapid.T) *C14Case {
 	}
 	// a constant spelled like a poryswitch case key: case keys are not substitution sites
 	if rapid.IntRange(0, 4).Draw(t, "keyconst") == 0 {
-		key := rapid.SampledFrom([]string{"A", "B"}).Draw(t, "keyconstname")
+		key := rapid.SampledFrom([]string{"A", "B", "walk_up", "delay_16", "step_end"}).Draw(t, "keyconstname") // (nor are movement steps)
 		c.File.Tops = append([]*Top{{K: "const", Const: &Const{Name: key, Val: []string{"ITEM_KEYCONST"}}}}, c.File.Tops...)
 	}
 	if len(sc.Body.Stmts) > 0 {
 		pos := rapid.IntRange(0, len(c.File.Tops)).Draw(t, "scriptpos")
-		c.File.Tops = append(c.File.Tops[:pos], append([]*Top{{K: "script", Script: sc}}, c.File.Tops[pos:]...)...)
+		top := &Top{K: "script", Script: sc}
+		// the commands with moves() may also sit in an inline map script or in an inline table row
+		switch rapid.IntRange(0, 3).Draw(t, "movesowner") {
+		case 0:
+			top = &Top{K: "mapscripts", Map: &MapScripts{Name: "MapS", Entries: []*MSEntry{{Kind: "inline", Type: "MAP_SCRIPT_ON_LOAD", Body: sc.Body}}}}
+		case 1:
+			top = &Top{K: "mapscripts", Map: &MapScripts{Name: "MapS", Entries: []*MSEntry{{Kind: "table", Type: "MAP_SCRIPT_ON_FRAME_TABLE", Rows: []*MSRow{{Var: []string{"VAR_TEMP_0"}, Val: []string{"0"}, Body: sc.Body}}}}}}
+		}
+		c.File.Tops = append(c.File.Tops[:pos], append([]*Top{top}, c.File.Tops[pos:]...)...)
 	}
 	// injected out-of-range multiplier (in a selected or unselected position: both must be rejected or... only
 	// where it is parsed: the compiler parses every case, so any position is rejected)
@@ -270,8 +278,23 @@ func checkC14(c *C14Case) *Violation {
 			if v := checkMove(t.Movement.Name, t.Movement.Steps, t.Movement.Scope == "global", true); v != nil {
 				return v
 			}
-		case "script":
-			for _, s := range t.Script.Body.Stmts {
+		case "script", "mapscripts":
+			body := &Block{}
+			if t.K == "script" {
+				body = t.Script.Body
+			} else {
+				for _, e := range t.Map.Entries {
+					if e.Body != nil {
+						body = e.Body
+					}
+					for _, r := range e.Rows {
+						if r.Body != nil {
+							body = r.Body
+						}
+					}
+				}
+			}
+			for _, s := range body.Stmts {
 				ar := s.Cmd.Args[1]
 				lbl := bind.ArgLabel[ar]
 				line := fmt.Sprintf("\t%s OBJ, %s", s.Cmd.Name, lbl)
